@@ -114,7 +114,7 @@ CLAIMED = {
         category="proof",
         text="On the ghost builder: an end tag that does not name the innermost open element raises ParseError, text after an end tag raises ParseError, close() raises ParseError while any element is open, a stray end tag on an empty stack reaches the C builder's IndexError, a second top-level element is refused by the C builder. Whole documents: bounded fault enumeration (every truncation point, every single end-tag deletion / renaming / misspelling / duplication / transposition, stray text and end tags, second top-level element) of every rendering of every tree with <= 3 nodes against the strict reference tokenizer.",
         design_ref="DESIGN.md 9 (C08)",
-        note="The per-call contracts are proofs; the statement for whole documents rests on the bounded enumeration (stated). The nesting check itself was missing on the pinned tree and was repaired (fix 05cd1d5). Known finding KF-C08-stray-cdata-skipped: a CDATA section that belongs to no element is skipped without a word unless it directly follows a standalone end tag (carved out by position in the fault enumeration, replayed on every run). Chains of up to 130 nested aggregates (600 thorough) are part of the enumeration.",
+        note="The per-call contracts are proofs; the statement for whole documents rests on the bounded enumeration (stated). The nesting check itself was missing on the pinned tree and was repaired (fix 05cd1d5). Known finding KF-C08-stray-cdata-skipped: a CDATA section that belongs to no element is skipped without a word unless it directly follows a standalone end tag (carved out by position in the fault enumeration, replayed on every run). Chains of up to 130 nested aggregates (260 thorough) are part of the enumeration.",
         technique="contracts on _feedmatch/_start/close over a ghost element stack (pyvc + z3); bounded fault enumeration",
         engine="pyvc"),
     "C05": dict(
